@@ -261,7 +261,8 @@ func runC10(args []string) error {
 		}
 		comment := []byte{}
 		if l.Comment {
-			comment = []byte("a comment in some encoding \xff\xfe")
+			// comments are free-form bytes in PAR 1.0: long, one byte, a single NUL, odd with trailing NULs, odd, even
+			comment = [][]byte{[]byte("a comment in some encoding \xff\xfe"), []byte("!"), {0}, {'A', 0, 0}, []byte("odd"), []byte("ab"), {0, 0}}[li%7]
 		}
 		dir := filepath.Join(c.dir, "c10r")
 		if err := sandbox.Fresh(dir); err != nil {
